@@ -21,7 +21,8 @@ Inductive ex :=
 | XAdd (a b : ex)
 | XSub (a b : ex)
 | XMod (a b : ex)
-| XAnd (a b : ex).            (* bitwise & *)
+| XAnd (a b : ex)             (* bitwise & *)
+| XPeek2.                     (* get_value(stream.data, stream.index, 2): the next two bytes, unchecked (short at the end of the data) *)
 
 Inductive cd :=
 | CNoRange (e : ex)           (* not stream.check_range(e) *)
@@ -48,6 +49,9 @@ Inductive st :=
 | TContinue                   (* continue (in a loop body) *)
 | TBreak                      (* break (in a loop body) *)
 | TPure                       (* a statement that neither mentions the stream nor leaves the block (formatting, appending a line) *)
+| TRepeat (count : ex) (body : st)          (* for _ in range(count): body *)
+| TAppendPair (lst : name) (w1 w2 : ex)     (* x = C(stream.get_int(w1), stream.get_int(w2)); lst.append(x)   (C a plain record) *)
+| TCall (v : name) (callee : name)          (* v = <callee class>(stream): handled by run1 below *)
 | TUnknown.                   (* a statement outside the fragment *)
 
 Record sst := mkS { s_rest : bytes; s_idx : Z; s_ints : list (name * Z); s_mems : list (name * bytes) }.
@@ -78,6 +82,7 @@ Fixpoint ev (e : ex) (s : sst) : option Z :=
   | XAdd a b => match ev a s, ev b s with Some x, Some y => Some (x + y) | _, _ => None end
   | XSub a b => match ev a s, ev b s with Some x, Some y => Some (x - y) | _, _ => None end
   | XAnd a b => match ev a s, ev b s with Some x, Some y => Some (Z.land x y) | _, _ => None end
+  | XPeek2 => Some (Z.of_N (be_val (firstn 2 (s_rest s)) 0))
   | XMod a b => match ev a s, ev b s with
                 | Some x, Some y => if y =? 0 then None else Some (x mod y)
                 | _, _ => None end
@@ -108,6 +113,18 @@ Fixpoint evc (c : cd) (s : sst) : option bool :=
                | Some false => evc b s
                | other => other end
   | CTruthy e => match ev e s with Some x => Some (negb (x =? 0)) | None => None end
+  end.
+
+(* for _ in range(n): f *)
+Fixpoint iter_body (f : sst -> res) (n : nat) (s0 : sst) : res :=
+  match n with
+  | O => RFall s0
+  | S k => match f s0 with
+           | RFall s' => iter_body f k s'
+           | RCont s' => iter_body f k s'
+           | RBrk s' => RFall s'
+           | r => r
+           end
   end.
 
 Fixpoint run (p : st) (s : sst) : res :=
@@ -158,10 +175,100 @@ Fixpoint run (p : st) (s : sst) : res :=
   | TContinue => RCont s
   | TBreak => RBrk s
   | TPure => RFall s
+  | TRepeat e body =>
+      match ev e s with
+      | Some z =>
+          iter_body (run body) (Z.to_nat z) s
+      | None => RErr
+      end
+  | TAppendPair lst w1 w2 =>
+      match ev w1 s, ev w2 s with
+      | Some a, Some b =>
+          if (0 <? a) && (0 <? b) && has (Z.to_nat a + Z.to_nat b) (s_rest s)
+          then RFall (mkS (skipn (Z.to_nat a + Z.to_nat b) (s_rest s)) (s_idx s + a + b)
+                          ((lst ++ [46; 49]%N, Z.of_N (be_val (firstn (Z.to_nat b) (skipn (Z.to_nat a) (s_rest s))) 0))
+                           :: (lst ++ [46; 48]%N, Z.of_N (be_val (firstn (Z.to_nat a) (s_rest s)) 0)) :: s_ints s) (s_mems s))
+          else RErr
+      | _, _ => RErr
+      end
+  | TCall _ _ => RErr
   | TUnknown => RErr
   end.
 
 Definition init (d : bytes) : sst := mkS d 0 [] [].
+
+(* ---- one level of constructor calls:  v = C(stream)  runs C's translated __init__ (itself without calls) on the same stream with
+   fresh variables; afterwards the attributes self.x the constructor has assigned are visible to the caller as v.x.  A constructor
+   that left through an early `return` still yields its object: the marker v.__early is 1 then, 0 otherwise.  The callee must
+   not look at stream.index (it runs on a relative index). ---- *)
+Fixpoint uses_idx_e (e : ex) : bool :=
+  match e with
+  | XIdx => true
+  | XAdd a b | XSub a b | XMod a b | XAnd a b => uses_idx_e a || uses_idx_e b
+  | _ => false
+  end.
+Fixpoint uses_idx_c (c : cd) : bool :=
+  match c with
+  | CNoRange e | CTruthy e => uses_idx_e e
+  | CGt a b | CLt a b | CEq a b | CNe a b => uses_idx_e a || uses_idx_e b
+  | CAnd a b | COr a b => uses_idx_c a || uses_idx_c b
+  end.
+Fixpoint uses_idx (p : st) : bool :=
+  match p with
+  | TSeq a b => uses_idx a || uses_idx b
+  | TInt _ w | TMem _ w | TSkip w => uses_idx_e w
+  | TLet _ e => uses_idx_e e
+  | TIf c th el => uses_idx_c c || uses_idx th || uses_idx el
+  | TRepeat e b => uses_idx_e e || uses_idx b
+  | TAppendPair _ a b => uses_idx_e a || uses_idx_e b
+  | _ => false
+  end.
+
+Definition self_dot : name := [115; 101; 108; 102; 46]%N.           (* "self." *)
+Fixpoint is_prefix (a b : name) : bool :=
+  match a, b with
+  | [], _ => true
+  | x :: a', y :: b' => N.eqb x y && is_prefix a' b'
+  | _ :: _, [] => false
+  end.
+(* self.x of the callee is v.x of the caller; the callee's locals are dropped *)
+Fixpoint rename_keys {A} (v : name) (m : list (name * A)) : list (name * A) :=
+  match m with
+  | [] => []
+  | (k, x) :: t => if is_prefix self_dot k then (v ++ skipn 4 k, x) :: rename_keys v t else rename_keys v t
+  end.
+Definition early_key (v : name) : name := v ++ [46; 95; 95; 101; 97; 114; 108; 121]%N.      (* v ++ ".__early" *)
+
+Definition after_call (v : name) (early : Z) (s s' : sst) : sst :=
+  mkS (s_rest s') (s_idx s + s_idx s') ((early_key v, early) :: rename_keys v (s_ints s') ++ s_ints s)
+      (rename_keys v (s_mems s') ++ s_mems s).
+
+Fixpoint lookup_prog (pe : list (name * st)) (c : name) : option st :=
+  match pe with
+  | [] => None
+  | (k, q) :: t => if text_eqb k c then Some q else lookup_prog t c
+  end.
+
+Fixpoint run1 (pe : list (name * st)) (p : st) (s : sst) : res :=
+  match p with
+  | TSeq a b => match run1 pe a s with RFall s' => run1 pe b s' | r => r end
+  | TIf c th el => match evc c s with
+                   | Some true => run1 pe th s
+                   | Some false => run1 pe el s
+                   | None => RErr end
+  | TCall v c =>
+      match lookup_prog pe c with
+      | Some q =>
+          if uses_idx q then RErr
+          else match run q (mkS (s_rest s) 0 [] []) with
+               | RFall s' => RFall (after_call v 0 s s')
+               | RRet _ s' => RFall (after_call v 1 s s')
+               | _ => RErr
+               end
+      | None => RErr
+      end
+  | other => run other s
+  end.
 
 Definition int_of (s : sst) (v : name) : N := match geti (s_ints s) v with Some z => Z.to_N z | None => 0%N end.
 Definition mem_of (s : sst) (v : name) : bytes := match getm (s_mems s) v with Some b => b | None => [] end.
